@@ -202,7 +202,8 @@ pub fn frames_rx(data: &[u8]) -> CaseResult {
     let total_pending: usize = (0..chunks).map(|i| pend[i % 2] as usize).sum();
     let every = (head[7] % 5) as usize;
     let cancel: Vec<usize> = if every == 0 { vec![] } else { (1..=total_pending).filter(|n| n % every == 0).collect() };
-    let case = RxCase { target, frames, cuts, pend, cancel };
+    // bit 7 of the stride byte: join / split the halves between receives
+    let case = RxCase { target, frames, cuts, pend, cancel, rejoin: if head[7] & 0x80 != 0 { 1 + (head[7] >> 5 & 3) % 3 } else { 0 } };
     let run = case.run();
     case.judge(&run)
 }
